@@ -92,6 +92,10 @@ struct Session {
     panic_seen: bool,
     ended: bool, // abort / drop
     must_stay_absent: bool,
+    /// the destination held an object after the previous op
+    last_present: bool,
+    /// the abort watchdog had to answer a parked call
+    watchdog_released: bool,
     success: bool,
     reported: Vec<String>,
 }
@@ -115,6 +119,8 @@ impl Session {
             panic_seen: false,
             ended: false,
             must_stay_absent: false,
+            last_present: false,
+            watchdog_released: false,
             success: false,
             reported: vec![],
         }
@@ -259,8 +265,48 @@ impl Session {
                 }
             }
             K::Abort => {
-                self.writer.as_mut().unwrap().abort().await;
-                "aborted".into()
+                // watchdog: `abort()` must not wait for a store answer that only the case can give.  If it does not
+                // return, the parked calls are answered `ok` one by one after a grace period (one settle each) and
+                // the output line says so (`aborted waited=<ids>`); `abort-hung` if it still does not return.
+                let mut waited: Vec<String> = vec![];
+                let mut done = false;
+                {
+                    let mut fut = Box::pin(self.writer.as_mut().unwrap().abort());
+                    for _ in 0..8 {
+                        match catch_unwind(AssertUnwindSafe(|| std::future::Future::poll(fut.as_mut(), &mut cx))) {
+                            Err(_) => {
+                                waited.push("panic".into());
+                                done = true;
+                                break;
+                            }
+                            Ok(Poll::Ready(())) => {
+                                done = true;
+                                break;
+                            }
+                            Ok(Poll::Pending) => {}
+                        }
+                        settle().await;
+                        if let Ok(Poll::Ready(())) = catch_unwind(AssertUnwindSafe(|| std::future::Future::poll(fut.as_mut(), &mut cx))) {
+                            done = true;
+                            break;
+                        }
+                        match store.gate.live().first() {
+                            Some(id) => {
+                                store.gate.release(store.inner.as_ref(), id, Decision::Ok).await;
+                                waited.push(id.clone());
+                                self.watchdog_released = true;
+                            }
+                            None => break,
+                        }
+                    }
+                }
+                if !done {
+                    "abort-hung".into()
+                } else if waited.is_empty() {
+                    "aborted".into()
+                } else {
+                    format!("aborted waited={}", waited.join(","))
+                }
             }
             K::Drop => {
                 self.writer = None;
@@ -325,7 +371,7 @@ impl Session {
             self.fail(fails, idx, "cursor_mismatch", format!("tell() = {} after {} accepted bytes", self.last_cur, self.pos));
         }
         // nothing at the destination before the completion step of shutdown
-        if (body.is_some() || extra) && !self.final_applied {
+        if (body.is_some() || extra) && !self.final_applied && !self.watchdog_released {
             self.fail(fails, idx, "visible_before_shutdown", format!("destination listing {listing:?} before put/complete was answered"));
         }
         if let Some(b) = &body {
@@ -348,10 +394,14 @@ impl Session {
         }
         // abort / drop before completion, or a reported failure (fail-stop faults): no object, now or later
         if matches!(k, K::Abort | K::Drop) {
-            if body.is_none() && !self.final_applied {
+            // judged on the destination as it was BEFORE the abort: nothing published, no publishing answer given
+            if !self.last_present && !self.final_applied {
                 self.must_stay_absent = true;
             }
             self.ended = true;
+        }
+        if res == "abort-hung" {
+            self.fail(fails, idx, "abort_hangs", "abort() did not return although every parked store call was answered".into());
         }
         if res.starts_with("err") && !self.lr_seen {
             self.must_stay_absent = true;
@@ -381,6 +431,7 @@ impl Session {
             self.fail(fails, idx, key, format!("`{line}` answered Pending with no store call in flight and no wake-up"));
         }
 
+        self.last_present = body.is_some() || extra;
         format!(
             "{res} cur={} calls={} dest={dest}{size_suffix}",
             self.last_cur,
@@ -473,6 +524,11 @@ impl Prop for C31 {
         } else if idx < 2 * fixed.len() {
             // the same payloads, answers in random order, one connection reset where there is a part
             (4, fixed[idx - fixed.len()].clone(), idx % 2 == 0)
+        } else if idx < 2 * fixed.len() + 10 || rng.chance(1, 12) {
+            // shutdown started and given up while the final request (put / complete) is outstanding, then abort,
+            // then the store answers the final request
+            let k = if idx < 2 * fixed.len() + 10 { idx - 2 * fixed.len() } else { rng.usize(fixed.len()) };
+            (5, fixed[[1usize, 3, 4, 0, 8, 2, 7, 11, 5, 10][k % 10].min(fixed.len() - 1)].clone(), k % 3 == 0)
         } else {
             let sc = match rng.below(20) {
                 0..=5 => 0,
@@ -512,7 +568,7 @@ impl Prop for C31 {
         let mut finished = false;
         let mut reset_budget = if scenario == 4 { 1 } else { 3 };
         let end_at = if scenario == 2 { rng.below(14) as usize + 1 } else { usize::MAX };
-        let fifo = idx < fixed.len();
+        let fifo = idx < fixed.len() || scenario == 5;
         while lines.len() < 90 {
             if scenario == 2 && lines.len() >= end_at && !s.ended {
                 run!(if rng.chance(1, 2) { "abort".to_string() } else { "drop".to_string() });
@@ -625,6 +681,16 @@ impl Prop for C31 {
                 }
             } else if out.starts_with("pending") {
                 need_release = true;
+                if scenario == 5 && shutting {
+                    if let Some(id) = s.live().into_iter().find(|id| id == "s" || id == "f") {
+                        run!(if rng.chance(4, 5) { "abort".to_string() } else { "drop".to_string() });
+                        run!(format!("rel {id} ok"));
+                        if s.writer.is_some() {
+                            run!("sd".to_string());
+                        }
+                        break;
+                    }
+                }
             } else if out.starts_with("stuck") {
                 break;
             } else {
@@ -697,7 +763,7 @@ impl Prop for C31 {
     fn rule(&self) -> String {
         "online generator: a client writes a plan of chunks (sizes around the part size: 1, init-1, init, init+1, 2*init±1, 5 MiB, random) with poll_write, \
          then polls shutdown; between polls the parked store calls (put_multipart, put_part by number, complete, put) are answered in FIFO (first 18 fixed payloads) or random order, \
-         with faults per scenario (none / fb, connection reset, lost response / abort or drop at a random point / protocol misuse: writes after shutdown, polls after errors, bogus ids, zero-length writes); \
+         with faults per scenario (none / fb, connection reset, lost response / abort or drop at a random point / shutdown given up while put or complete is outstanding, then abort, then the store answers / protocol misuse: writes after shutdown, polls after errors, bogus ids, zero-length writes); \
          non-trivial = at least two polls and either accepted bytes or an answered store call"
             .into()
     }
